@@ -941,6 +941,7 @@ public:
 			if (from[ii++] != default_assignment_separator || sz < (ii + val_sz))
 				break;
 
+			*tag = 0;
 			::memcpy(val, &from[ii], val_sz);
 			val[val_sz] = 0;
 			return ii + val_sz + 1; // account for field separator
